@@ -633,16 +633,15 @@ KindVers == { << k, "v311" >> : k \in Kinds311 } \cup { << k, "v50" >> : k \in K
 Widths(k) == IF k \in HasPid THEN {16, 32} ELSE {16}
 Groups == UNION { { Hdr(kv[1], kv[2], w) : w \in Widths(kv[1]) } : kv \in KindVers }
 
-(* quick: every alternative of every field once (full lattice) + all pairs  *)
-(* over the medium sets; thorough: all pairs and all triples over the full  *)
-(* lattice.  (MC_Codec enumerates the same sets slice by slice.)            *)
+(* quick: all pairs of fields over the full lattice; thorough: all pairs    *)
+(* and all triples.  (MC_Codec enumerates the same sets slice by slice.)    *)
 DomRaw(g, tier) ==
   LET d == Def(g.k, g.v, g.w)
       F == Alt(g.k, g.v, g.w, "full")
       M == Alt(g.k, g.v, g.w, "med")
   IN  IF g.k \in {"pingreq", "pingresp"} THEN { Hdr(g.k, g.v, g.w) }
       ELSE IF g.k = "disconnect" /\ g.v = "v311" THEN { d }
-      ELSE IF tier = "quick" THEN OneWise(d, F) \cup TwoWise(d, M)
+      ELSE IF tier = "quick" THEN TwoWise(d, F)
       ELSE TwoWise(d, F) \cup UNION { ThreeWiseAt(d, F, f) : f \in DOMAIN F }
 Dom(g, tier) == { q \in { Fix(x) : x \in DomRaw(g, tier) } : ValidPacket(q) }
 
